@@ -6,9 +6,38 @@ package preprocessor
 
 // preprocess: the stage function, treated as opaque by the worker-level contracts (it may
 // change any program state; ghost/atomic state only through functions named in `noreach`).
+//@ func matchRegexExclusion
+//@   property C05
+//@   requires item != nil && item.url != nil && config.config != nil
+//@   modifies nothing
+//@   loop range invariant [scanned] -1 <= rangeindex && rangeindex < len(config.config.ExclusionRegexes) && forall(j, 0, rangeindex+1, !config.config.ExclusionRegexes[j].MatchString(models.urlKey(item.url)))
+//@   ensures [def] result == exists(j, 0, len(config.config.ExclusionRegexes), config.config.ExclusionRegexes[j].MatchString(models.urlKey(item.url))) // C05: matches an exclusion-file regex
+
+// In-scope predicate of the statement, over what the gate functions compute: scheme/host gate
+// (from NormalizeURL, see C09), include filters, exclude filters and exclusion regexes.
+//@ pred schemeHostOK(u *models.URL) = (goada.adaProtocol(u.Raw) == "http:" || goada.adaProtocol(u.Raw) == "https:") && strings.Contains(goada.adaHostname(u.Raw), ".") && goada.adaHostname(u.Raw) != "localhost" && goada.adaHostname(u.Raw) != "127.0.0.1"
+//@ pred included(u *models.URL) = (len(config.config.IncludeHosts) == 0 && len(config.config.IncludeString) == 0) || utils.StringContainsSliceElements(u.parsed.Host, config.config.IncludeHosts) || utils.StringContainsSliceElements(models.urlKey(u), config.config.IncludeString)
+//@ pred excluded(it *models.Item) = utils.StringContainsSliceElements(it.url.parsed.Host, config.config.ExcludeHosts) || utils.StringContainsSliceElements(models.urlKey(it.url), config.config.ExcludeString) || matchRegexExclusion(it)
+//@ pred inScope(it *models.Item) = schemeHostOK(it.url) && included(it.url) && !excluded(it)
+
+// preprocess. What is proved for C05 is the per-node gate of the first loop: a node that is
+// still in the list when its iteration ends (it was neither removed from the tree nor made the
+// function return) satisfies inScope. `handled` is a ghost local recording the index of the
+// node the current iteration removed (after-hooks on the RemoveChild calls).
 //@ func preprocess
-//@   opaque
-//@   modifies models.Item::*, models.URL::*
+//@   property C05
+//@   attr assume-pre NormalizeURL:non-nil
+//@   requires seed != nil && config.config != nil && models.ErrNotASeed != nil && ErrUnsupportedScheme != nil && ErrUnsupportedHost != nil
+//@   requires config.config.UseHQ ==> hq.globalHQ != nil && hq.globalHQ.client != nil
+//@   modifies models.Item::*, models.URL::*, elem::*models.Item, mapof(goada.hrefTable()), mapof(seencheck.store), mapof(gocrawlhq.hqNew), atomic(*), seencheck.gNode, seencheck.gKey, seencheck.gType, seencheck.gHad, seencheck.gOld
+//@   local handled int = -1
+//@   after RemoveChild(GetParent())#1: handled = rangeindex
+//@   after RemoveChild(GetParent())#2: handled = rangeindex
+//@   after RemoveChild(GetParent())#3: handled = rangeindex
+//@   after RemoveChild(GetParent())#4: handled = rangeindex
+//@   loop range invariant [gate] rangeindex >= 0 && handled != rangeindex ==> inScope(items[rangeindex]) // C05: never sends a request for a URL outside the operator's scope ... applies equally to seeds, redirect targets and embedded assets
+//@   assert SetRequest(GetURL())#1: [own-request] http.reqTarget(req) == models.urlKey(items[i].url) // C05: the request attached to a node is built from that node's own canonical URL
+//@   loop range invariant [cfg] config.config != nil && seed != nil && models.ErrNotASeed != nil && ErrUnsupportedScheme != nil && ErrUnsupportedHost != nil && (config.config.UseHQ ==> hq.globalHQ != nil && hq.globalHQ.client != nil)
 
 // Worker gauge discipline (C17): the worker contributes +1 to the PreprocessorRoutines gauge
 // while it is alive and its net contribution is 0 once it has returned, on every exit path.
